@@ -137,6 +137,9 @@ func DecodePropFindRequest(r *http.Request) (*PropFind, error) {
 		if err := DecodeXMLRequest(r, &propfind); err != nil {
 			return nil, err
 		}
+		if err := CheckPropSelection(propfind.Prop, propfind.AllProp, propfind.PropName); err != nil {
+			return nil, err
+		}
 	} else {
 		var b [1]byte
 		if _, err := r.Body.Read(b[:]); err != io.EOF {
@@ -168,6 +171,25 @@ func (h *Handler) handlePropfind(w http.ResponseWriter, r *http.Request) error {
 	}
 
 	return ServeMultiStatus(w, ms)
+}
+
+// CheckPropSelection checks that a PROPFIND or REPORT request doesn't specify
+// more than one of prop, allprop and propname, which are mutually exclusive.
+func CheckPropSelection(prop *Prop, allProp, propName *struct{}) error {
+	n := 0
+	if prop != nil {
+		n++
+	}
+	if allProp != nil {
+		n++
+	}
+	if propName != nil {
+		n++
+	}
+	if n > 1 {
+		return HTTPErrorf(http.StatusBadRequest, "webdav: only one of prop, allprop and propname can be specified")
+	}
+	return nil
 }
 
 type PropFindFunc func(raw *RawXMLValue) (interface{}, error)
